@@ -57,12 +57,20 @@ def _case(draw: Any, args: dict) -> dict:
     for _ in range(draw(st.integers(2, 4))):
         decls.append(gt.func(namer.fresh("fn"), [gt.param(namer.fresh("q"), "pos", t(), None) for _ in range(draw(st.integers(1, 2)))], ret=t(), doc="A function."))
     decls.append(gt.enum("Shade", ["DARK", "LIGHT"]))
+    if draw(st.booleans()):
+        decls.append(gt.klass("GenericBox", [gt.func("get", [gt.param("d", "pos", ["tvar", "TG"], None)], ret=["tvar", "TG"], kind="method")], tparams=[{"name": "TG", "variance": "", "bound": None, "values": []}]))
+        decls.append(gt.klass("PlainWithTypeVarMethod", [gt.func("ident", [gt.param("v", "pos", ["tvar", "TG"], None)], ret=["tvar", "TG"], kind="method")]))
     moved = namer.fresh("Moved")
     decls.append(gt.klass(moved, [gt.attr(namer.fresh("mx"), t(), None)]))
     if use_priv:
         decls.insert(0, priv_base)
     target = gt.module([pk, "a", "target"], decls, doc=draw(st.sampled_from(["Target module.", None])))
-    inits = {f"{pk}/a": [["from", ".target", moved, None]]}
+    # a sibling private module whose class (sorting before the target's moved class) is re-exported by the same __init__
+    def alpha(changed: bool) -> dict:
+        ptypes = [["float"], ["str"]] if changed else [["ext", "pathlib", "PurePath"], hr[0]]
+        return gt.module([pk, "a", "_alpha"], [gt.klass("Alpha", [gt.func("measure", [gt.param("shape", "pos", ptypes[1], None), gt.param("where", "pos", ptypes[0], None)], ret=["int"], kind="method")]), gt.func("alpha_helper", [gt.param("x", "pos", ptypes[0], None)], ret=["int"])])
+
+    inits = {f"{pk}/a": [["from", "._alpha", "Alpha", None], ["from", "._alpha", "alpha_helper", None], ["from", ".target", moved, None]]}
     # unrelated modules: may reuse the target's class / function / module names
     def unrelated(path: list[str], reuse: bool, variant: int) -> dict:
         names_c = (["Foo", "Bar"] if reuse else [namer.fresh("Other"), namer.fresh("Other")])
@@ -81,7 +89,7 @@ def _case(draw: Any, args: dict) -> dict:
 
     u_path = [pk, "b", draw(st.sampled_from(["things", "target", "helper"]))]
     u = unrelated(u_path, collide, 0)
-    base_mods = [helper, target]
+    base_mods = [helper, target, alpha(False)]
     variants: list[dict] = []
     variants.append({"name": "U removed", "modules": base_mods, "inits": inits})
     variants.append({"name": "U renamed", "modules": [*base_mods, {**copy.deepcopy(u), "path": [pk, "b", "renamed_mod"]}], "inits": inits})
@@ -89,8 +97,9 @@ def _case(draw: Any, args: dict) -> dict:
     variants.append({"name": "second U added", "modules": [*base_mods, u, unrelated([pk, "c", "things"], collide, 2)], "inits": inits})
     variants.append({"name": "U placed before the target's package", "modules": [{**copy.deepcopy(u), "path": [pk, "_0first", u_path[-1]]}, *base_mods], "inits": inits})
     variants.append({"name": "U placed after everything", "modules": [*base_mods, {**copy.deepcopy(u), "path": [pk, "zz_last", u_path[-1]]}], "inits": inits})
+    variants.append({"name": "sibling module re-exported by the same __init__ changed inside", "modules": [helper, target, alpha(True), u], "inits": inits})
     perm = draw(st.permutations(range(len(decls))))
-    variants.append({"name": "target declarations permuted", "modules": [helper, {**target, "decls": [decls[i] for i in perm]}, u], "inits": inits, "permuted": True})
+    variants.append({"name": "target declarations permuted", "modules": [helper, {**target, "decls": [decls[i] for i in perm]}, alpha(False), u], "inits": inits, "permuted": True})
     # renamed module with class refs inside must be re-pointed
     for v in variants:
         for m in v["modules"]:
@@ -127,7 +136,13 @@ def judge(case: dict) -> dict:
         mem["t"] == "attr" and mem["ann"] and mem["ann"][0] == "list" and mem["ann"][1][0] in {"cls", "enum"} and mem["ann"][1][1] in own_refs
         for d in tmod["decls"] if d["t"] == "class" for mem in d["members"]
     )
-    perm_tags = tags + (["attr:list_of_class_defined_later"] if list_attr_own else [])
+    fwd_classes = {
+        d["name"]
+        for d in tmod["decls"]
+        if d["t"] == "class"
+        and any(mem["t"] == "attr" and mem["ann"] and mem["ann"][0] == "list" and mem["ann"][1][0] in {"cls", "enum"} and mem["ann"][1][1] in own_refs for mem in d["members"])
+    }
+    _ = list_attr_own
 
     def run(v: dict) -> dict | None:
         files = gt.render_package(gt.package(pk, v["modules"], v["inits"]))
@@ -167,8 +182,15 @@ def judge(case: dict) -> dict:
                 ca = Counter(repr(norm_decl(d, False)) for d in a.members)
                 cb = Counter(repr(norm_decl(d, False)) for d in b.members)
                 if ca != cb:
-                    diff = list((ca - cb).keys())[:1] + list((cb - ca).keys())[:1]
-                    discs.append(Discrepancy.make("declaration_changes_with_declaration_order", rel, f"{[x[:160] for x in diff]}", perm_tags))
+                    # name the declarations that changed; the open finding covers only classes with a forward list attribute
+                    da = {d.python_name: repr(norm_decl(d, False)) for d in a.members}
+                    db = {d.python_name: repr(norm_decl(d, False)) for d in b.members}
+                    for nm in sorted(set(da) | set(db)):
+                        if da.get(nm) != db.get(nm):
+                            dtags = tags + (["attr:list_of_class_defined_later"] if nm in fwd_classes else []) + (["tvar:method_typevar_after_generic_class"] if nm == "PlainWithTypeVarMethod" else [])
+                            x, y = da.get(nm, "<absent>"), db.get(nm, "<absent>")
+                            i = next((k for k in range(min(len(x), len(y))) if x[k] != y[k]), 0)
+                            discs.append(Discrepancy.make("declaration_changes_with_declaration_order", f"{rel}: {nm}", f"...{x[max(0, i - 60) : i + 60]} vs ...{y[max(0, i - 60) : i + 60]}", dtags))
                 for kind in ("fun", "class", "enum"):
                     oa = [d.python_name for d in a.members if d.kind == kind]
                     ob = [d.python_name for d in b.members if d.kind == kind]
